@@ -159,6 +159,7 @@ type state struct {
 	mem     map[ssa.Value]ssa.Value
 	bind    map[ssa.Value]ssa.Value // parameters and free variables of inlined frames
 	facts   map[ssa.Value]*fact
+	loads   map[string]ssa.Value // canonical load per field address (value numbering)
 	events  []Event
 	blocks  []*ssa.BasicBlock
 	blockEv []int
@@ -171,6 +172,7 @@ func (st *state) clone() *state {
 		mem:     make(map[ssa.Value]ssa.Value, len(st.mem)),
 		bind:    make(map[ssa.Value]ssa.Value, len(st.bind)),
 		facts:   make(map[ssa.Value]*fact, len(st.facts)),
+		loads:   make(map[string]ssa.Value, len(st.loads)),
 		events:  append([]Event(nil), st.events...),
 		blocks:  append([]*ssa.BasicBlock(nil), st.blocks...),
 		blockEv: append([]int(nil), st.blockEv...),
@@ -183,6 +185,9 @@ func (st *state) clone() *state {
 	}
 	for k, v := range st.bind {
 		n.bind[k] = v
+	}
+	for k, v := range st.loads {
+		n.loads[k] = v
 	}
 	for k, v := range st.facts {
 		c := *v
@@ -241,7 +246,7 @@ func Enumerate(fn *ssa.Function, cfg Config, visit func(*Path)) (Stats, error) {
 		}
 		done[b] = true
 		en.start = b
-		st := &state{phi: map[*ssa.Phi]ssa.Value{}, mem: map[ssa.Value]ssa.Value{}, bind: map[ssa.Value]ssa.Value{}, facts: map[ssa.Value]*fact{}}
+		st := &state{phi: map[*ssa.Phi]ssa.Value{}, mem: map[ssa.Value]ssa.Value{}, bind: map[ssa.Value]ssa.Value{}, facts: map[ssa.Value]*fact{}, loads: map[string]ssa.Value{}}
 		st.fr = &frame{fn: fn, seen: map[*ssa.BasicBlock]bool{}}
 		if b != fn.Blocks[0] {
 			// A segment that starts at a loop header inherits the defers
@@ -353,6 +358,9 @@ func (en *enum) instrs(st *state, b *ssa.BasicBlock, from int) {
 		case *ssa.Phi, *ssa.DebugRef:
 			// handled on entry
 		case *ssa.Call:
+			if _, builtin := ins.Call.Value.(*ssa.Builtin); !builtin && len(st.loads) > 0 && !pureCall(&ins.Call) {
+				st.loads = map[string]ssa.Value{}
+			}
 			ev := en.callEvent(st, KCall, ins, &ins.Call)
 			ev.Result = ins
 			if cal := ev.Callee; cal != nil && ins.Call.Method == nil && en.shouldInline(fr.fn, cal) {
@@ -411,6 +419,17 @@ func (en *enum) instrs(st *state, b *ssa.BasicBlock, from int) {
 				}
 				st.events = append(st.events, ev)
 			case token.MUL:
+				if fa, ok := ins.X.(*ssa.FieldAddr); ok {
+					// value numbering: a second load of the same field with no
+					// store or call in between yields the same value
+					if k := loadKey(st, fa); k != "" {
+						if prev, ok := st.loads[k]; ok {
+							st.bind[ins] = prev
+						} else {
+							st.loads[k] = ins
+						}
+					}
+				}
 				if en.cfg.Loads {
 					if _, ok := ins.X.(*ssa.FieldAddr); ok {
 						st.events = append(st.events, Event{Kind: KLoad, Instr: ins, Fn: fr.fn, Depth: fr.depth, Addr: st.resolveAddr(ins.X), Result: ins})
@@ -422,6 +441,9 @@ func (en *enum) instrs(st *state, b *ssa.BasicBlock, from int) {
 			val := st.resolve(ins.Val)
 			if a, ok := addr.(*ssa.Alloc); ok {
 				st.mem[a] = val
+			}
+			if len(st.loads) > 0 {
+				st.invalidateLoads(addr)
 			}
 			st.events = append(st.events, Event{Kind: KStore, Instr: ins, Fn: fr.fn, Depth: fr.depth, Addr: addr, Val: val})
 		case *ssa.MapUpdate:
@@ -642,6 +664,75 @@ func (en *enum) inline(st *state, callee *ssa.Function, ev Event, k func(*state,
 	en.block(st, callee.Blocks[0], nil)
 }
 
+// loadKey names the location of a field address rooted at a parameter,
+// free variable or local allocation.
+func loadKey(st *state, fa *ssa.FieldAddr) string {
+	r := RoleOfAddr(fa)
+	if r.Path == "" || r.Base == nil {
+		return ""
+	}
+	switch b := st.resolve(r.Base).(type) {
+	case *ssa.Parameter, *ssa.FreeVar, *ssa.Alloc:
+		return r.Path + "@" + b.Name()
+	case *ssa.UnOp:
+		if fv, ok := b.X.(*ssa.FreeVar); ok {
+			return r.Path + "@*" + fv.Name()
+		}
+	}
+	return ""
+}
+
+// invalidateLoads forgets the numbered loads a store through addr may change.
+func (st *state) invalidateLoads(addr ssa.Value) {
+	root := addr
+	for {
+		switch x := root.(type) {
+		case *ssa.IndexAddr:
+			root = x.X
+			continue
+		case *ssa.FieldAddr:
+			root = x.X
+			continue
+		}
+		break
+	}
+	if al, ok := root.(*ssa.Alloc); ok {
+		// a local allocation: only loads rooted at it are affected
+		suffix := "@" + al.Name()
+		for k := range st.loads {
+			if strings.HasSuffix(k, suffix) {
+				delete(st.loads, k)
+			}
+		}
+		return
+	}
+	if fa, ok := addr.(*ssa.FieldAddr); ok {
+		if r := RoleOfAddr(fa); r.Field != "" {
+			for k := range st.loads {
+				if strings.Contains(k, "."+r.Field+"@") || strings.Contains(k, "."+r.Field+".") {
+					delete(st.loads, k)
+				}
+			}
+			return
+		}
+	}
+	st.loads = map[string]ssa.Value{}
+}
+
+// pureCall lists library calls that cannot store through a pointer the
+// analysed package shares with them.
+func pureCall(c *ssa.CallCommon) bool {
+	f := c.StaticCallee()
+	if f == nil || f.Pkg == nil {
+		return false
+	}
+	switch f.Pkg.Pkg.Path() {
+	case "errors", "fmt", "time", "strings", "unicode/utf8", "encoding/binary":
+		return true
+	}
+	return false
+}
+
 // HasLoop reports whether the CFG of fn has a cycle.
 func HasLoop(fn *ssa.Function) bool {
 	color := make([]int8, len(fn.Blocks))
@@ -691,6 +782,10 @@ func (st *state) resolve(v ssa.Value) ssa.Value {
 			}
 			return v
 		case *ssa.UnOp:
+			if r, ok := st.bind[x]; ok && r != v {
+				v = r
+				continue
+			}
 			if x.Op == token.MUL {
 				a := st.resolveAddr(x.X)
 				if r, ok := st.mem[a]; ok {
